@@ -379,13 +379,27 @@ pub fn gen_table_plan(rng: &mut Prng, property: &str, thorough: bool) -> TablePl
         let k = rng.range(1, 3);
         for _ in 0..k {
             if rng.chance(1, 5) {
-                variants.push(Variant::Style(rng.range(1, 7) as u8));
+                variants.push(Variant::Style(match rng.below(6) {
+                    0 => 8,
+                    1 => 16,
+                    2 => 8 | rng.below(8) as u8,
+                    _ => rng.range(1, 7) as u8,
+                }));
             } else if rng.coin() {
                 variants.push(Variant::Channel(gen_channel(rng)));
             } else {
                 variants.push(Variant::Repeat(if rng.chance(1, 10) { *rng.pick(&[5usize, 8, 12, 16, 17, 32, 64, 65, 100, 128, 256, 257]) } else { rng.range(1, 4) }));
             }
         }
+    }
+    if c11 && rng.chance(1, 3) {
+        // O5: the same ordering file handed over in another way
+        variants.push(Variant::Style(match rng.below(4) {
+            0 => 8,
+            1 => 8 | rng.below(8) as u8,
+            2 => 16,
+            _ => rng.range(1, 7) as u8,
+        }));
     }
     if blowup.is_some() {
         variants.push(Variant::Repeat(rng.range(2, 3)));
@@ -507,14 +521,32 @@ pub fn run_rsbdd(dir: &Path, inv: &Invocation) -> Spawned {
         }
         Channel::StdinPipe(chunks) => stdin_pipe = Some(chunks),
     }
+    // style bit 4 (16) = `cwd-removed`: the process starts in a directory that no longer exists, so
+    // every path is absolute and there is no @argfile; style bit 3 (8) = `ordering-pipe`: the
+    // ordering is read through a pipe (`-o /dev/stdin`) when stdin is not used for the formula
+    let cwd_removed = inv.style & 16 == 16;
+    let style = if cwd_removed { inv.style & !3 } else { inv.style };
+    let mut ordering_pipe: Option<&[u8]> = None;
+    if cwd_removed {
+        if let Some(last) = args.last_mut() {
+            if last == "f.txt" {
+                *last = dir.join("f.txt").to_string_lossy().to_string();
+            }
+        }
+    }
     if let Some(o) = inv.ordering {
         let p = dir.join("o.txt");
         std::fs::write(&p, o).expect("tmpfs write");
         args.push("-o".into());
-        args.push(if inv.style & 1 == 1 { "o.txt".to_string() } else { p.to_string_lossy().to_string() });
+        if style & 8 == 8 && matches!(inv.channel, Channel::Evaluate | Channel::File) {
+            args.push("/dev/stdin".into());
+            ordering_pipe = Some(o);
+        } else {
+            args.push(if style & 1 == 1 { "o.txt".to_string() } else { p.to_string_lossy().to_string() });
+        }
     }
     args.extend(inv.args.iter().cloned());
-    if inv.style & 4 == 4 {
+    if style & 4 == 4 {
         // the same arguments in reverse order (an option keeps its value)
         let takes_value = ["-o", "-f", "-b", "-d", "-p", "-c", "-e"];
         let mut units: Vec<Vec<String>> = Vec::new();
@@ -531,14 +563,19 @@ pub fn run_rsbdd(dir: &Path, inv: &Invocation) -> Spawned {
         units.reverse();
         args = units.into_iter().flatten().collect();
     }
-    if inv.style & 2 == 2 && args.iter().all(|a| !a.contains('\n') && !a.contains('\r') && !a.is_empty() && a.trim() == a) {
+    if style & 2 == 2 && args.iter().all(|a| !a.contains('\n') && !a.contains('\r') && !a.is_empty() && a.trim() == a) {
         // argfile: one argument per line; only when every argument survives that encoding verbatim
         std::fs::write(dir.join("args.txt"), args.join("\n")).expect("tmpfs write");
         args = vec!["@args.txt".to_string()];
     }
-    let mut cmd = Command::new(bin_dir().join("rsbdd"));
-    cmd.args(&args)
-        .current_dir(dir)
+    let mut cmd = if cwd_removed {
+        super::rgsim::command_in_removed_cwd(&bin_dir().join("rsbdd"), &args, dir)
+    } else {
+        let mut c = Command::new(bin_dir().join("rsbdd"));
+        c.args(&args);
+        c
+    };
+    cmd.current_dir(dir)
         .env_clear()
         .env("PATH", "/usr/bin:/bin")
         .env("RSBDD_VERIF_BUDGET", CHILD_BUDGET.to_string())
@@ -546,7 +583,7 @@ pub fn run_rsbdd(dir: &Path, inv: &Invocation) -> Spawned {
         .stderr(Stdio::piped());
     if let Some(f) = stdin_file {
         cmd.stdin(Stdio::from(f));
-    } else if stdin_pipe.is_some() {
+    } else if stdin_pipe.is_some() || ordering_pipe.is_some() {
         cmd.stdin(Stdio::piped());
     } else {
         cmd.stdin(Stdio::null());
@@ -570,6 +607,11 @@ pub fn run_rsbdd(dir: &Path, inv: &Invocation) -> Spawned {
                 pos = end;
             }
             let _ = si.write_all(&inv.text[pos.min(inv.text.len())..]);
+        }
+    }
+    if let Some(o) = ordering_pipe {
+        if let Some(mut si) = child.stdin.take() {
+            let _ = si.write_all(o);
         }
     }
     let out = child.wait_with_output().expect("wait failed");
@@ -939,7 +981,7 @@ pub fn execute_table(p: &TablePlan) -> RunOutcome {
                         let (ch, b, oracle, what, style) = match var {
                             Variant::Channel(c) => (c.clone(), p.b, "T7", format!("channel {}", c.name()), 0u8),
                             Variant::Repeat(n) => (p.channel.clone(), Some(*n), "T8", format!("-b {n}"), 0u8),
-                            Variant::Style(st) => (p.channel.clone(), p.b, "T7", format!("argument style {st} (bit 0 = relative paths, bit 1 = @argfile, bit 2 = reversed argument order)"), *st),
+                            Variant::Style(st) => (p.channel.clone(), p.b, if prop == "C11" { "O5" } else { "T7" }, format!("argument style {st} (bit 0 = relative paths, bit 1 = @argfile, bit 2 = reversed argument order, bit 3 = ordering read through a pipe, bit 4 = started in a removed working directory)"), *st),
                         };
                         let r = run_rsbdd(
                             &dir,
